@@ -71,10 +71,18 @@ def main():
         def verdict(e):
             return ", ".join("%s:%s" % (c["check"], "caught" if c["exit"] == 1 else ("harness-error" if c["exit"] == 3 else "missed")) for c in e["checks"])
         rows.append((name, prop, change, verdict(first) if first else "-", verdict(last) if last and last is not first else ""))
-    print("| seeded change | property | what was changed | first evaluation | after strengthening |")
-    print("|---|---|---|---|---|")
+    lines = ["| seeded change | property | what was changed | first evaluation | after strengthening |", "|---|---|---|---|---|"]
     for r in rows:
-        print("| %s | %s | %s | %s | %s |" % r)
+        lines.append("| %s | %s | %s | %s | %s |" % r)
+    print("\n".join(lines))
+    import sys
+    if "--design" in sys.argv:
+        p = os.path.join(HERE, "DESIGN.md")
+        s = open(p).read()
+        b, e = "<!-- CALIBRATION-TABLE-BEGIN -->", "<!-- CALIBRATION-TABLE-END -->"
+        if b in s and e in s:
+            s = s[:s.index(b) + len(b)] + "\n" + "\n".join(lines) + "\n" + s[s.index(e):]
+            open(p, "w").write(s)
 
 
 if __name__ == "__main__":
